@@ -231,7 +231,7 @@ func errClass(err error) string {
 
 var opNames = []string{"ExecutionAllowed", "ExecutionAllowedWithArgsHook", "ExecutionAllowed/alt-args", "ExecutionAllowed/alt-args", "ExecutionAllowed/incomplete-loader", "dlg.Policy.Match/alt-data", "inv.ToSealed", "inv.ToDagCbor", "inv.ToDagJson", "inv.ToSealedWriter",
 	"inv.accessors", "args.Iter", "args.String", "args.ToIPLD", "args.Equals", "args.GetNode", "args.WriteableClone",
-	"meta.Iter", "meta.String", "meta.Get", "inv.IsValid",
+	"meta.Iter", "meta.String", "meta.Get", "meta.GetEncrypted", "meta.GetEncrypted", "meta.GetBytes", "dlg.Meta.GetEncrypted", "inv.IsValid",
 	"dlg.ToSealed", "dlg.ToDagJson", "dlg.accessors", "dlg.Policy.String", "dlg.Policy.Match", "dlg.Meta.String", "dlg.IsValid"}
 
 // aloneComparable: operations whose result does not depend on the wall clock or on signatures, so that the
@@ -249,8 +249,41 @@ func sortedLines(s string) string {
 	return strings.Join(l, "\n")
 }
 
+// keeper holds on to byte slices that operations returned, the way a caller would, together with a private
+// copy: a result must stay what it was while the caller holds it ("a result equivalent to the one it returns
+// when run alone" - not one that turns into another call's result afterwards).
+type keeper struct {
+	live [][]byte
+	copy [][]byte
+	what []string
+}
+
+func (k *keeper) keep(what string, b []byte) {
+	if k == nil || b == nil {
+		return
+	}
+	k.live = append(k.live, b)
+	k.copy = append(k.copy, append([]byte{}, b...))
+	k.what = append(k.what, what)
+	if len(k.live) > 64 {
+		k.live, k.copy, k.what = k.live[1:], k.copy[1:], k.what[1:]
+	}
+}
+
+func (k *keeper) changed() string {
+	if k == nil {
+		return ""
+	}
+	for i := range k.live {
+		if !bytes.Equal(k.live[i], k.copy[i]) {
+			return fmt.Sprintf("%s: was %.60q, now %.60q", k.what[i], k.copy[i], k.live[i])
+		}
+	}
+	return ""
+}
+
 // apply runs one operation and returns a canonical rendering of its result.
-func (w *world) apply(op string, which int) (res string) {
+func (w *world) apply(op string, which int, k *keeper) (res string) {
 	defer func() {
 		if r := recover(); r != nil {
 			res = fmt.Sprintf("panic: %v", r)
@@ -284,7 +317,29 @@ func (w *world) apply(op string, which int) (res string) {
 		return fmt.Sprint(ok, ok2)
 	case "inv.ToSealed":
 		b, c, err := w.inv.ToSealed(invPriv)
+		k.keep(op, b)
 		return fmt.Sprintf("%x %s %v", b, c, err)
+	case "meta.GetEncrypted":
+		var sb strings.Builder
+		for i, e := range w.cs.Inv.EncMeta {
+			if (i+which)%2 == 0 {
+				b, err := w.inv.Meta().GetEncryptedBytes(e.K, chain.EncKey(e.KeyByte))
+				k.keep(op+"/"+e.K, b)
+				sb.WriteString(fmt.Sprintf("%x %v;", b, err))
+			} else {
+				s, err := w.inv.Meta().GetEncryptedString(e.K, chain.EncKey(e.KeyByte))
+				sb.WriteString(fmt.Sprintf("%x %v;", s, err))
+			}
+		}
+		return sb.String()
+	case "meta.GetBytes":
+		var sb strings.Builder
+		for _, e := range w.cs.Inv.EncMeta {
+			b, err := w.inv.Meta().GetBytes(e.K)
+			k.keep(op+"/"+e.K, b)
+			sb.WriteString(fmt.Sprintf("%x %v;", b, err))
+		}
+		return sb.String()
 	case "inv.ToDagCbor":
 		b, err := w.inv.ToDagCbor(invPriv)
 		return fmt.Sprintf("%x %v", b, err)
@@ -296,6 +351,7 @@ func (w *world) apply(op string, which int) (res string) {
 		c, err := w.inv.ToSealedWriter(&buf, invPriv)
 		return fmt.Sprintf("%x %s %v", buf.Bytes(), c, err)
 	case "inv.accessors":
+		k.keep("inv.Nonce", w.inv.Nonce())
 		return fmt.Sprint(w.inv.Issuer(), w.inv.Subject(), w.inv.Audience(), w.inv.Command(), w.inv.Proof(), fmt.Sprintf("%x", w.inv.Nonce()), w.inv.Expiration(), w.inv.InvokedAt() != nil, w.inv.Cause())
 	case "args.Iter":
 		var sb strings.Builder
@@ -350,11 +406,21 @@ func (w *world) apply(op string, which int) (res string) {
 	switch op {
 	case "dlg.ToSealed":
 		b, c, err := d.ToSealed(priv)
+		k.keep(op, b)
 		return fmt.Sprintf("%x %s %v", b, c, err)
+	case "dlg.Meta.GetEncrypted":
+		var sb strings.Builder
+		for _, e := range dl.EncMeta {
+			b, err := d.Meta().GetEncryptedBytes(e.K, chain.EncKey(e.KeyByte))
+			k.keep(op+"/"+e.K, b)
+			sb.WriteString(fmt.Sprintf("%x %v;", b, err))
+		}
+		return sb.String()
 	case "dlg.ToDagJson":
 		b, err := d.ToDagJson(priv)
 		return fmt.Sprintf("%s %v", b, err)
 	case "dlg.accessors":
+		k.keep("dlg.Nonce", d.Nonce())
 		return fmt.Sprint(d.Issuer(), d.Audience(), d.Subject(), d.Command(), fmt.Sprintf("%x", d.Nonce()), d.NotBefore(), d.Expiration())
 	case "dlg.Policy.String":
 		return d.Policy().String()
@@ -492,6 +558,17 @@ func drawChain(t *rapid.T) (chain.Case, []val.KV) {
 	for _, k := range mperm[:nm] {
 		cs.Inv.Meta = append(cs.Inv.Meta, val.KV{K: k, V: val.Str("v" + k)})
 	}
+	if rapid.Bool().Draw(t, "encmeta") {
+		ne := rapid.IntRange(1, 3).Draw(t, "nenc")
+		for i := 0; i < ne; i++ {
+			cs.Inv.EncMeta = append(cs.Inv.EncMeta, chain.EncKV{K: fmt.Sprintf("enc%d", i), Plain: fmt.Sprintf("secret-%d-%s", i, strings.Repeat("x", i*7)), KeyByte: byte(i + 1)})
+		}
+		for j := range cs.Links {
+			if rapid.Bool().Draw(t, "lenc") {
+				cs.Links[j].EncMeta = []chain.EncKV{{K: "e0", Plain: "delegated secret A", KeyByte: 7}, {K: "e1", Plain: "another one, longer than the first", KeyByte: 7}}
+			}
+		}
+	}
 	for i := range cs.Links {
 		cs.Links[i].SpareCap = rapid.Bool().Draw(t, "sparecap")
 		cs.Links[i].Decoded = cs.Links[i].Decoded && !cs.Links[i].SpareCap
@@ -542,8 +619,13 @@ func runSeq(c *h.Ctx, sc SeqCase) {
 	before := allSnaps(w)
 	touch := false
 	ops := map[string]int{}
+	kp := &keeper{}
 	for i, st := range sc.Hist {
-		r1 := w.apply(st.Op, st.Which)
+		r1 := w.apply(st.Op, st.Which, kp)
+		if ch := kp.changed(); ch != "" {
+			c.Fail("C20/returned-value-changed-by/"+st.Op, "a byte slice returned by an earlier operation changed when operation %d (%s) ran:\n%s", i, st.Op, ch)
+			return
+		}
 		after := allSnaps(w)
 		for j := range before {
 			if after[j] != before[j] {
@@ -555,16 +637,18 @@ func runSeq(c *h.Ctx, sc SeqCase) {
 				return
 			}
 		}
-		r2 := w.apply(st.Op, st.Which)
+		r2 := w.apply(st.Op, st.Which, kp)
 		if !equivalent(st.Op, sc.Chain, r1, r2) {
 			c.Fail("C20/not-repeatable/"+st.Op, "operation %s returned a different result the second time:\n 1st %.300s\n 2nd %.300s", st.Op, r1, r2)
 			return
 		}
 		// "each returns a result equivalent to the one it returns when run alone": a fresh world built from
 		// the same description, this one operation only
-		if aloneComparable[st.Op] && i > 0 {
+		// (freshly built tokens carry freshly encrypted metadata: ciphertexts differ by design, C19)
+		freshDiffers := len(sc.Chain.Inv.EncMeta) > 0 && (st.Op == "meta.Iter" || st.Op == "meta.String")
+		if aloneComparable[st.Op] && i > 0 && !freshDiffers {
 			if fw, err := build(sc.Chain, sc.Alt); err == nil {
-				if ra := fw.apply(st.Op, st.Which); ra != r1 {
+				if ra := fw.apply(st.Op, st.Which, nil); ra != r1 {
 					c.Fail("C20/differs-from-alone/"+st.Op, "operation %d (%s) returned, after the %d operations before it,\n   %.300s\nwhile the same operation run alone on freshly built tokens returns\n   %.300s\nhistory so far: %v", i, st.Op, i, r1, ra, sc.Hist[:i+1])
 					return
 				}
@@ -625,10 +709,15 @@ func runConc(c *h.Ctx, cc ConcCase) {
 	expected := make([][]string, len(cc.Hists))
 	for g, hist := range cc.Hists {
 		for _, st := range hist {
-			expected[g] = append(expected[g], w.apply(st.Op, st.Which))
+			expected[g] = append(expected[g], w.apply(st.Op, st.Which, nil))
 		}
 	}
 	got := make([][]string, len(cc.Hists))
+	kps := make([]*keeper, len(cc.Hists))
+	changedBy := make([]string, len(cc.Hists))
+	for g := range kps {
+		kps[g] = &keeper{}
+	}
 	var wg sync.WaitGroup
 	start := make(chan struct{})
 	for g, hist := range cc.Hists {
@@ -637,7 +726,10 @@ func runConc(c *h.Ctx, cc ConcCase) {
 			defer wg.Done()
 			<-start
 			for _, st := range hist {
-				got[g] = append(got[g], w.apply(st.Op, st.Which))
+				got[g] = append(got[g], w.apply(st.Op, st.Which, kps[g]))
+				if ch := kps[g].changed(); ch != "" && changedBy[g] == "" {
+					changedBy[g] = st.Op + ": " + ch
+				}
 			}
 		}(g, hist)
 	}
@@ -645,6 +737,12 @@ func runConc(c *h.Ctx, cc ConcCase) {
 	wg.Wait()
 	touch := false
 	ops := map[string]int{}
+	for g := range changedBy {
+		if changedBy[g] != "" {
+			c.Fail("C20/returned-value-changed-by/concurrent-history", "goroutine %d: a byte slice returned by an earlier operation changed while other goroutines read the same tokens: %s", g, changedBy[g])
+			return
+		}
+	}
 	for g, hist := range cc.Hists {
 		for i, st := range hist {
 			if got[g][i] != expected[g][i] {
